@@ -24,4 +24,5 @@ cd harness
 while read -r pkg bin; do
   cargo build --release -p "$pkg" --bin "$bin"
 done < ../.setup_targets.txt
+cargo check -p p_bounds --bins --keep-going >/dev/null 2>&1 || true   # compile-time probes of C03 (half of them must fail to compile)
 rm -f ../.setup_targets.txt
